@@ -31,7 +31,7 @@ SUBSETS = [list(c) for r in range(1, 5) for c in itertools.combinations(NAMES + 
 SELS = WILD + SUBSETS  # 18
 EXPOSED = [list(c) for r in range(0, 4) for c in itertools.combinations(NAMES, r)]  # 8
 
-ACCESSOR = re.compile(r'^\s*(?:::)?(?:\w+\s*::\s*)*Dzn\s*::\s*(Sts|Mts)\s*<[^>]+>\s*(Provides|Requires)(MultiClient)?(\w+)\s*\(')
+ACCESSOR = re.compile(r'^\s*(?:::)?(?:\w+\s*::\s*)*Dzn\s*::\s*(Sts|Mts)\s*<[^>]+>\s*((?:Provides|Requires)\w+)\s*\(')
 
 
 def toy_model(prov, req, injected, raw=False):
@@ -116,7 +116,7 @@ def accessor_map(files):
     for line in hdr.split('\n'):
         m = ACCESSOR.match(line)
         if m:
-            out[(m.group(2).lower(), m.group(4))] = m.group(1).upper()
+            out[m.group(2)] = m.group(1).upper()  # full accessor function name -> semantics
     return out
 
 
@@ -160,8 +160,10 @@ def judge(verdict, ref, spec, fc, prov, req, injected, build, case=None):
                        'wrong-semantics')
     if files is not None and verdict == MUST_ACCEPT:
         acc = accessor_map(files)
-        want = {('provides', p[0].upper() + p[1:]): ref[p] for p in prov}
-        want.update({('requires', p[0].upper() + p[1:]): ref[p] for p in req})
+        mcp = (spec.get('mc') or {}).get('port')
+        want = {'Provides' + ('MultiClient' if p == mcp else '') + p[0].upper() + p[1:]: ref[p]
+                for p in prov}
+        want.update({'Requires' + p[0].upper() + p[1:]: ref[p] for p in req})
         if acc != want:
             raise Fail(f'accessors in the header {acc} != reference {want}', 'accessors')
         if len(files) != 8:
